@@ -611,6 +611,7 @@ impl<'a> Read<'a> for SliceRead<'a> {
                     tri!(ignore_escape(self));
                 }
                 _ => {
+                    self.index += 1;
                     return error(self, ErrorCode::ControlCharacterWhileParsingString);
                 }
             }
